@@ -1,71 +1,83 @@
-import XjsModel.Proofs.ParserSmart
+import XjsModel.Proofs.ParserLen
+import XjsModel.Spec.TreeShape
 /-
-  The smart-semicolon pass (C13 c).
+  C11 (e): a parse step that records no error returns a complete node (every mandatory child present,
+  recursively). Motive: `errors only grow ∧ (complete ∨ an error was recorded)`.
 -/
 namespace Xjs
 set_option linter.unusedSimpArgs false
+set_option linter.unusedVariables false
 
-def SmartM {α : Type} (f : PS → Option (α × PS)) (st : PS) (r : α × PS) : Prop :=
-  st.noLI → (f st = some r ∧ r.2.noLI)
+theorem cmp_parseFunctionParameters (st : PS) (x : List Ident) (st' : PS) (h : parseFunctionParameters st = some (x, st')) :
+    st.elen ≤ st'.elen ∧ (True ∨ st.elen < st'.elen) := ⟨elen_parseFunctionParameters h, Or.inl trivial⟩
+
+syntax "cmp_close" : tactic
+macro_rules
+  | `(tactic| cmp_close) => `(tactic| (
+      simp only [elen_next, elen_push, elen_pop, elen_addError, elen_addErrorAt, elen_set, elen_setPrec, elen_setTrace,
+        elen_expectToken, elen_expectSemi] at *
+      first
+        | (refine ⟨?_, Or.inr ?_⟩ <;> first | omega | (simp_all [expErr, semiErr] <;> omega))
+        | (refine ⟨?_, Or.inl ?_⟩
+           · first | omega | (simp_all [expErr, semiErr] <;> omega)
+           · simp_all [Expr.complete, Stmt.complete, ExprList.complete, StmtList.complete, PropList.complete, StmtList.complete_snoc, ExprList.complete_snoc, PropList.complete_snoc, Expr.isNone, Stmt.isNone, expErr, semiErr])))
 
 set_option maxHeartbeats 3200000 in
-theorem smart_mutual (cfg : PCfg) :
-    (∀ is st r, parseStatementI cfg.smartOff is st = some r → SmartM (parseStatementI cfg.smartOn is) st r) ∧
-    (∀ st r, baseParseStatement cfg.smartOff st = some r → SmartM (baseParseStatement cfg.smartOn) st r) ∧
-    (∀ st r, parseExpressionStatement cfg.smartOff st = some r → SmartM (parseExpressionStatement cfg.smartOn) st r) ∧
-    (∀ is prec st r, parseExpressionI cfg.smartOff is prec st = some r → SmartM (parseExpressionI cfg.smartOn is prec) st r) ∧
-    (∀ left prec st r, parseRemaining cfg.smartOff left prec st = some r → SmartM (parseRemaining cfg.smartOn left prec) st r) ∧
-    (∀ left st r, parseInfixExpression cfg.smartOff left st = some r → SmartM (parseInfixExpression cfg.smartOn left) st r) ∧
-    (∀ endTy st r, parseExpressionList cfg.smartOff endTy st = some r → SmartM (parseExpressionList cfg.smartOn endTy) st r) ∧
-    (∀ acc st r, exprListLoop cfg.smartOff acc st = some r → SmartM (exprListLoop cfg.smartOn acc) st r) ∧
-    (∀ st r, parsePrefixExpression cfg.smartOff st = some r → SmartM (parsePrefixExpression cfg.smartOn) st r) ∧
-    (∀ st r, parseFunctionExpression cfg.smartOff st = some r → SmartM (parseFunctionExpression cfg.smartOn) st r) ∧
-    (∀ st r, parseBlockStatement cfg.smartOff st = some r → SmartM (parseBlockStatement cfg.smartOn) st r) ∧
-    (∀ acc st r, blockLoop cfg.smartOff acc st = some r → SmartM (blockLoop cfg.smartOn acc) st r) ∧
-    (∀ st r, parseObjectLiteral cfg.smartOff st = some r → SmartM (parseObjectLiteral cfg.smartOn) st r) ∧
-    (∀ acc st r, objectLoop cfg.smartOff acc st = some r → SmartM (objectLoop cfg.smartOn acc) st r) ∧
-    (∀ st r, parseForStatement cfg.smartOff st = some r → SmartM (parseForStatement cfg.smartOn) st r) ∧
-    (∀ st r, parseForInit cfg.smartOff st = some r → SmartM (parseForInit cfg.smartOn) st r) ∧
-    (∀ st r, parseLetExpression cfg.smartOff st = some r → SmartM (parseLetExpression cfg.smartOn) st r) ∧
-    (∀ st r, parseWhileStatement cfg.smartOff st = some r → SmartM (parseWhileStatement cfg.smartOn) st r) ∧
-    (∀ st r, parseIfStatement cfg.smartOff st = some r → SmartM (parseIfStatement cfg.smartOn) st r) ∧
-    (∀ st r, parseReturnStatement cfg.smartOff st = some r → SmartM (parseReturnStatement cfg.smartOn) st r) ∧
-    (∀ st r, parseFunctionStatement cfg.smartOff st = some r → SmartM (parseFunctionStatement cfg.smartOn) st r) ∧
-    (∀ st r, parseLetStatement cfg.smartOff st = some r → SmartM (parseLetStatement cfg.smartOn) st r) := by
-  refine parseStatementI.mutual_partial_correctness cfg.smartOff
-    (fun is st r => SmartM (parseStatementI cfg.smartOn is) st r)
-    (fun st r => SmartM (baseParseStatement cfg.smartOn) st r)
-    (fun st r => SmartM (parseExpressionStatement cfg.smartOn) st r)
-    (fun is prec st r => SmartM (parseExpressionI cfg.smartOn is prec) st r)
-    (fun left prec st r => SmartM (parseRemaining cfg.smartOn left prec) st r)
-    (fun left st r => SmartM (parseInfixExpression cfg.smartOn left) st r)
-    (fun endTy st r => SmartM (parseExpressionList cfg.smartOn endTy) st r)
-    (fun acc st r => SmartM (exprListLoop cfg.smartOn acc) st r)
-    (fun st r => SmartM (parsePrefixExpression cfg.smartOn) st r)
-    (fun st r => SmartM (parseFunctionExpression cfg.smartOn) st r)
-    (fun st r => SmartM (parseBlockStatement cfg.smartOn) st r)
-    (fun acc st r => SmartM (blockLoop cfg.smartOn acc) st r)
-    (fun st r => SmartM (parseObjectLiteral cfg.smartOn) st r)
-    (fun acc st r => SmartM (objectLoop cfg.smartOn acc) st r)
-    (fun st r => SmartM (parseForStatement cfg.smartOn) st r)
-    (fun st r => SmartM (parseForInit cfg.smartOn) st r)
-    (fun st r => SmartM (parseLetExpression cfg.smartOn) st r)
-    (fun st r => SmartM (parseWhileStatement cfg.smartOn) st r)
-    (fun st r => SmartM (parseIfStatement cfg.smartOn) st r)
-    (fun st r => SmartM (parseReturnStatement cfg.smartOn) st r)
-    (fun st r => SmartM (parseFunctionStatement cfg.smartOn) st r)
-    (fun st r => SmartM (parseLetStatement cfg.smartOn) st r)
+theorem complete_mutual (cfg : PCfg) :
+    (∀ is st r, parseStatementI cfg is st = some r → st.elen ≤ r.2.elen ∧ ((r.1.complete = true) ∨ st.elen < r.2.elen)) ∧
+    (∀ st r, baseParseStatement cfg st = some r → st.elen ≤ r.2.elen ∧ ((r.1.complete = true) ∨ st.elen < r.2.elen)) ∧
+    (∀ st r, parseExpressionStatement cfg st = some r → st.elen ≤ r.2.elen ∧ ((r.1.complete = true) ∨ st.elen < r.2.elen)) ∧
+    (∀ is prec st r, parseExpressionI cfg is prec st = some r → st.elen ≤ r.2.elen ∧ ((r.1.complete = true) ∨ st.elen < r.2.elen)) ∧
+    (∀ left prec st r, parseRemaining cfg left prec st = some r → st.elen ≤ r.2.elen ∧ ((left.complete = true → r.1.complete = true) ∨ st.elen < r.2.elen)) ∧
+    (∀ left st r, parseInfixExpression cfg left st = some r → st.elen ≤ r.2.elen ∧ ((left.complete = true → r.1.complete = true) ∨ st.elen < r.2.elen)) ∧
+    (∀ endTy st r, parseExpressionList cfg endTy st = some r → st.elen ≤ r.2.elen ∧ ((r.1.complete = true) ∨ st.elen < r.2.elen)) ∧
+    (∀ acc st r, exprListLoop cfg acc st = some r → st.elen ≤ r.2.elen ∧ ((acc.complete = true → r.1.complete = true) ∨ st.elen < r.2.elen)) ∧
+    (∀ st r, parsePrefixExpression cfg st = some r → st.elen ≤ r.2.elen ∧ ((r.1.complete = true) ∨ st.elen < r.2.elen)) ∧
+    (∀ st r, parseFunctionExpression cfg st = some r → st.elen ≤ r.2.elen ∧ ((r.1.complete = true) ∨ st.elen < r.2.elen)) ∧
+    (∀ st r, parseBlockStatement cfg st = some r → st.elen ≤ r.2.elen ∧ ((r.1.complete = true) ∨ st.elen < r.2.elen)) ∧
+    (∀ acc st r, blockLoop cfg acc st = some r → st.elen ≤ r.2.elen ∧ ((acc.complete = true → r.1.complete = true) ∨ st.elen < r.2.elen)) ∧
+    (∀ st r, parseObjectLiteral cfg st = some r → st.elen ≤ r.2.elen ∧ ((r.1.complete = true) ∨ st.elen < r.2.elen)) ∧
+    (∀ acc st r, objectLoop cfg acc st = some r → st.elen ≤ r.2.elen ∧ ((acc.complete = true → ∃ p, r.1 = some p ∧ p.complete = true) ∨ st.elen < r.2.elen)) ∧
+    (∀ st r, parseForStatement cfg st = some r → st.elen ≤ r.2.elen ∧ ((r.1.complete = true) ∨ st.elen < r.2.elen)) ∧
+    (∀ st r, parseForInit cfg st = some r → st.elen ≤ r.2.elen ∧ (((r.1.isNone || r.1.complete) = true) ∨ st.elen < r.2.elen)) ∧
+    (∀ st r, parseLetExpression cfg st = some r → st.elen ≤ r.2.elen ∧ ((r.1.complete = true) ∨ st.elen < r.2.elen)) ∧
+    (∀ st r, parseWhileStatement cfg st = some r → st.elen ≤ r.2.elen ∧ ((r.1.complete = true) ∨ st.elen < r.2.elen)) ∧
+    (∀ st r, parseIfStatement cfg st = some r → st.elen ≤ r.2.elen ∧ ((r.1.complete = true) ∨ st.elen < r.2.elen)) ∧
+    (∀ st r, parseReturnStatement cfg st = some r → st.elen ≤ r.2.elen ∧ ((r.1.complete = true) ∨ st.elen < r.2.elen)) ∧
+    (∀ st r, parseFunctionStatement cfg st = some r → st.elen ≤ r.2.elen ∧ ((r.1.complete = true) ∨ st.elen < r.2.elen)) ∧
+    (∀ st r, parseLetStatement cfg st = some r → st.elen ≤ r.2.elen ∧ ((r.1.complete = true) ∨ st.elen < r.2.elen)) := by
+  refine parseStatementI.mutual_partial_correctness cfg
+    (fun _ st r => st.elen ≤ r.2.elen ∧ ((r.1.complete = true) ∨ st.elen < r.2.elen))
+    (fun st r => st.elen ≤ r.2.elen ∧ ((r.1.complete = true) ∨ st.elen < r.2.elen))
+    (fun st r => st.elen ≤ r.2.elen ∧ ((r.1.complete = true) ∨ st.elen < r.2.elen))
+    (fun _ _ st r => st.elen ≤ r.2.elen ∧ ((r.1.complete = true) ∨ st.elen < r.2.elen))
+    (fun left _ st r => st.elen ≤ r.2.elen ∧ ((left.complete = true → r.1.complete = true) ∨ st.elen < r.2.elen))
+    (fun left st r => st.elen ≤ r.2.elen ∧ ((left.complete = true → r.1.complete = true) ∨ st.elen < r.2.elen))
+    (fun _ st r => st.elen ≤ r.2.elen ∧ ((r.1.complete = true) ∨ st.elen < r.2.elen))
+    (fun acc st r => st.elen ≤ r.2.elen ∧ ((acc.complete = true → r.1.complete = true) ∨ st.elen < r.2.elen))
+    (fun st r => st.elen ≤ r.2.elen ∧ ((r.1.complete = true) ∨ st.elen < r.2.elen))
+    (fun st r => st.elen ≤ r.2.elen ∧ ((r.1.complete = true) ∨ st.elen < r.2.elen))
+    (fun st r => st.elen ≤ r.2.elen ∧ ((r.1.complete = true) ∨ st.elen < r.2.elen))
+    (fun acc st r => st.elen ≤ r.2.elen ∧ ((acc.complete = true → r.1.complete = true) ∨ st.elen < r.2.elen))
+    (fun st r => st.elen ≤ r.2.elen ∧ ((r.1.complete = true) ∨ st.elen < r.2.elen))
+    (fun acc st r => st.elen ≤ r.2.elen ∧ ((acc.complete = true → ∃ p, r.1 = some p ∧ p.complete = true) ∨ st.elen < r.2.elen))
+    (fun st r => st.elen ≤ r.2.elen ∧ ((r.1.complete = true) ∨ st.elen < r.2.elen))
+    (fun st r => st.elen ≤ r.2.elen ∧ (((r.1.isNone || r.1.complete) = true) ∨ st.elen < r.2.elen))
+    (fun st r => st.elen ≤ r.2.elen ∧ ((r.1.complete = true) ∨ st.elen < r.2.elen))
+    (fun st r => st.elen ≤ r.2.elen ∧ ((r.1.complete = true) ∨ st.elen < r.2.elen))
+    (fun st r => st.elen ≤ r.2.elen ∧ ((r.1.complete = true) ∨ st.elen < r.2.elen))
+    (fun st r => st.elen ≤ r.2.elen ∧ ((r.1.complete = true) ∨ st.elen < r.2.elen))
+    (fun st r => st.elen ≤ r.2.elen ∧ ((r.1.complete = true) ∨ st.elen < r.2.elen))
+    (fun st r => st.elen ≤ r.2.elen ∧ ((r.1.complete = true) ∨ st.elen < r.2.elen))
     ?_ ?_ ?_ ?_ ?_ ?_ ?_ ?_ ?_ ?_ ?_ ?_ ?_ ?_ ?_ ?_ ?_ ?_ ?_ ?_ ?_ ?_
   case refine_19 =>
     intro pS pE ih_pS ih_pE  st r h
     replace ih_pS := curry2 ih_pS; replace ih_pE := curry3 ih_pE
-    dsimp only [SmartM] at ih_pS ih_pE ⊢
+    dsimp only at ih_pS ih_pE ⊢
     obtain ⟨x, st'⟩ := r
-    intro h0
-    pdecompW h [ih_pS, ih_pE, smart_parseFunctionParameters]
+    pdecompD h [ih_pS, ih_pE, cmp_parseFunctionParameters]
     all_goals clear ih_pS ih_pE
-    all_goals refine ⟨?_, by simp_all (maxDischargeDepth := 8) [noLI_next, noLI_push_next, noLI_expectToken, noLI_expectSemi]⟩
-    all_goals (rw [parseIfStatement]; simp_all (maxDischargeDepth := 8) [noLI_next, noLI_push_next, noLI_expectToken, noLI_expectSemi])
+    all_goals cmp_close
 
   all_goals sorry
 end Xjs
